@@ -919,13 +919,16 @@ pub fn run_program(p: &Program, prop: &str, canary: bool, log: bool) -> Outcome 
             }
         }
         let mut rounds = 0;
+        // one driver poll may legitimately deliver a single completion (event capacity 1):
+        // allow one poll per pending operation plus four
+        let max_rounds = 4 + (0..n).filter(|i| ex.ops[*i].st == St::Pending).count() as i64;
         loop {
             let still: Vec<usize> = (0..n).filter(|i| ex.ops[*i].st == St::Pending).collect();
-            if still.is_empty() || rounds >= 5 {
+            if still.is_empty() || rounds >= max_rounds {
                 undelivered = still;
                 break;
             }
-            ex.poll([0u64, 5, 20, 50, 100][rounds as usize]);
+            ex.poll([0u64, 5, 20, 50, 100][(rounds as usize).min(4)]);
             for i in still {
                 ex.pop(i);
             }
@@ -970,7 +973,7 @@ pub fn run_program(p: &Program, prop: &str, canary: bool, log: bool) -> Outcome 
                 format!("op {i} was cancelled but had no outcome after {} polls", ex.ops[i].cancel_seq_polls));
         } else if confirmed && !shared {
             vio(&mut ex.viol, prop, "ready-but-undelivered", &c,
-                format!("op {i}: what it waits for is ready (confirmed with poll(2)) but 5 driver polls (175 ms in total) produced no result"));
+                format!("op {i}: what it waits for is ready (confirmed with poll(2)) but one driver poll per pending operation plus four produced no result"));
         } else {
             *ex.counts.entry("settle_unconfirmed").or_insert(0) += 1;
         }
@@ -1031,7 +1034,24 @@ pub fn run_program(p: &Program, prop: &str, canary: bool, log: bool) -> Outcome 
         }
         std::thread::sleep(Duration::from_millis(2));
     }
-    std::thread::sleep(Duration::from_micros(300));
+    // a pool thread releases what it still holds right after `BlockingEnd`: wait until
+    // the log has been silent for a moment (bounded)
+    if log {
+        let tq = Instant::now();
+        let mut last = STASH.with(|s| s.borrow().len());
+        let mut stable = 0;
+        while tq.elapsed() < Duration::from_millis(300) && stable < 3 {
+            std::thread::sleep(Duration::from_micros(500));
+            STASH.with(|s| s.borrow_mut().extend(verif::drain()));
+            let now = STASH.with(|s| s.borrow().len());
+            if now == last {
+                stable += 1;
+            } else {
+                stable = 0;
+                last = now;
+            }
+        }
+    }
     let groups = std::mem::take(&mut ex.groups);
     let fd_ids: Vec<u64> = groups.iter().map(|g| g.fd_id).collect();
     drop(groups);
@@ -1129,6 +1149,74 @@ pub fn run_program(p: &Program, prop: &str, canary: bool, log: bool) -> Outcome 
         log: check::render(&events, &names, 400),
         counts,
     }
+}
+
+/// Wait (bounded) until every pool job submitted so far has begun and ended.
+pub fn wait_pool_jobs(max: Duration) -> bool {
+    let t0 = Instant::now();
+    loop {
+        STASH.with(|s| s.borrow_mut().extend(verif::drain()));
+        let (b, e2, s2) = STASH.with(|s| {
+            let s = s.borrow();
+            (
+                s.iter().filter(|e| e.kind == verif::Kind::BlockingBegin).count(),
+                s.iter().filter(|e| e.kind == verif::Kind::BlockingEnd).count(),
+                s.iter().filter(|e| e.kind == verif::Kind::Submit && e.b == 2).count(),
+            )
+        });
+        if b == e2 && b == s2 {
+            return true;
+        }
+        if t0.elapsed() > max {
+            return false;
+        }
+        std::thread::sleep(Duration::from_millis(1));
+    }
+}
+
+/// Wait (bounded) until every pool job that was submitted has begun and ended and
+/// the log has been silent for a moment; returns whether that was reached and
+/// all events recorded so far (sorted).
+pub fn settle_log(max: Duration) -> (bool, Vec<verif::Event>) {
+    let t0 = Instant::now();
+    let mut quiet = true;
+    loop {
+        STASH.with(|s| s.borrow_mut().extend(verif::drain()));
+        let (b, e2, s2) = STASH.with(|s| {
+            let s = s.borrow();
+            (
+                s.iter().filter(|e| e.kind == verif::Kind::BlockingBegin).count(),
+                s.iter().filter(|e| e.kind == verif::Kind::BlockingEnd).count(),
+                s.iter().filter(|e| e.kind == verif::Kind::Submit && e.b == 2).count(),
+            )
+        });
+        if b == e2 && b == s2 {
+            break;
+        }
+        if t0.elapsed() > max {
+            quiet = false;
+            break;
+        }
+        std::thread::sleep(Duration::from_millis(2));
+    }
+    let tq = Instant::now();
+    let mut last = STASH.with(|s| s.borrow().len());
+    let mut stable = 0;
+    while tq.elapsed() < Duration::from_millis(300) && stable < 3 {
+        std::thread::sleep(Duration::from_micros(500));
+        STASH.with(|s| s.borrow_mut().extend(verif::drain()));
+        let now = STASH.with(|s| s.borrow().len());
+        if now == last {
+            stable += 1;
+        } else {
+            stable = 0;
+            last = now;
+        }
+    }
+    let mut events = STASH.with(|s| std::mem::take(&mut *s.borrow_mut()));
+    events.extend(verif::drain());
+    events.sort_by_key(|e| e.seq);
+    (quiet, events)
 }
 
 /// `Some(true)`: the pool thread finished the job at `addr`; `Some(false)`: the
@@ -1318,7 +1406,7 @@ fn judge_results(ex: &mut Exec) {
 
 /// Can `chunks` be placed, in some order, as consecutive pieces of `stream`
 /// starting at `at` (with gaps between them only if `gaps`)?
-fn arrange(stream: &[u8], chunks: &mut Vec<&[u8]>, at: usize, gaps: bool) -> bool {
+pub fn arrange(stream: &[u8], chunks: &mut Vec<&[u8]>, at: usize, gaps: bool) -> bool {
     if chunks.is_empty() {
         return true;
     }
